@@ -40,7 +40,13 @@ func ZipToTar(r *os.File, w io.Writer) error {
 	if err != nil {
 		return err
 	}
-	dirLoc, err := FindDirectory(r, size)
+	return ZipToTarSize(r, w, size, size)
+}
+
+// Like ZipToTar, for a file of length size whose zip ends at zipSize. Whatever
+// follows the zip (a signature trailer) is carried along in both members.
+func ZipToTarSize(r *os.File, w io.Writer, size, zipSize int64) error {
+	dirLoc, err := FindDirectory(r, zipSize)
 	if err != nil {
 		return err
 	}
